@@ -25,6 +25,7 @@ def dispatch (prop op : String) (a : Array Int) : Verdict :=
   | "C05" => C05.run op a
   | "C11" => C11.run op a
   | "C09" => Amg.run prop op a
+  | "C08" => Amg.run08 op a
   | "C01" => Amg.run prop op a
   | "C10" => Amg.run prop op a
   | _ => badCase s!"unknown property {prop}"
